@@ -37,6 +37,7 @@ for v in ('A', 'B', 'C', 'D'):
             ct = generic.condition_tables(f)
             if ct:
                 pr['T'] = ct
+                pr['Tc'] = generic.condition_leaf_counts(f)
             if cv:
                 pr['V'] = cv
             wf = generic.fields_written(f)
